@@ -317,6 +317,8 @@ def parent_is_live(prog, cg, eff, chk, T12):
             for (seq, ty, node, fn, conds) in ip.throws:
                 if seq > first_write:
                     continue
+                # the path condition of the throw is the conjunction of its conditions
+                all_in = any(x[0] == 'in' for c in conds for x in vf.leaves(c))
                 for c in conds:
                     lv = list(vf.leaves(c))
                     if any(x[0] == 'loc' and (x[1] or '').lower() in ('crate', 'list', 'playlist') for x in lv) and \
@@ -325,7 +327,7 @@ def parent_is_live(prog, cg, eff, chk, T12):
                     # `parent->is_valid()`: a call on the argument of a method that is an existence test
                     # of a crate row (whatever it is called): every definition of that name in the crate
                     # impl classes counts / selects the crate table keyed by id
-                    if any(x[0] == 'in' for x in lv):
+                    if all_in:
                         for nm in _call_names(c):
                             defs = [g for g in prog.functions.values() if g.body is not None and g.name == nm
                                     and g.cls and g.cls.endswith('crate_impl')]
